@@ -305,6 +305,13 @@ func (e *env) setupFixture(rng *rand.Rand) bool {
 	if e.fx.revoked, ok = mkTok(); !ok {
 		return false
 	}
+	// the revoked-token class is "issued, USED, then revoked": authenticate with it once before revoking it
+	if e.p.Auth {
+		if wu := e.st.HTTP(http.MethodGet, prefix+"/access", nil, map[string]string{"Authorization": "Bearer " + e.fx.revoked}); wu.Code != 200 {
+			e.fixtureFailure(http.MethodGet, prefix+"/access", wu)
+		}
+		_ = e.st.HTTP(http.MethodGet, prefix+"/chain/tip/longest", nil, map[string]string{"Authorization": "Bearer " + e.fx.revoked})
+	}
 	w := e.st.HTTP(http.MethodDelete, prefix+"/access/"+e.fx.revoked, nil, rig.Admin())
 	if w.Code != 200 || e.tokenInDB(e.fx.revoked) {
 		e.fixtureFailure(http.MethodDelete, prefix+"/access/:token", w)
@@ -687,6 +694,58 @@ func (e *env) probe(rt gin.RouteInfo, f filling, c cred) {
 	}
 }
 
+// failingTokenStore: while the token look-up itself fails inside the SQL layer (the tokens table is renamed away, so
+// every SELECT errors), a request whose token is NOT known to be valid must still be refused before any handler logic
+// runs: 401 or a 5xx are acceptable, reaching the handler is not (fail closed).
+func (e *env) failingTokenStore(routes []gin.RouteInfo) {
+	r := e.r
+	if _, err := e.st.DB.Exec(`ALTER TABLE tokens RENAME TO tokens_verif_away`); err != nil {
+		r.Violate("harness|rename-tokens", err.Error(), e.case0, nil)
+		return
+	}
+	defer func() {
+		if _, err := e.st.DB.Exec(`ALTER TABLE tokens_verif_away RENAME TO tokens`); err != nil {
+			r.Violate("harness|rename-tokens-back", err.Error(), e.case0, nil)
+		}
+	}()
+	for _, rt := range routes {
+		if !isAPI(rt.Path) {
+			continue
+		}
+		fs := e.fillings(rt)
+		if len(fs) == 0 {
+			continue
+		}
+		f := fs[0]
+		for _, class := range []string{clUnknown, clRevoked} {
+			cs := e.creds(class)
+			if len(cs) == 0 {
+				continue
+			}
+			c := cs[0]
+			routeSig := rt.Method + " " + rt.Path
+			caseID := fmt.Sprintf("%s/%s/%s/token-store-failing", e.case0, routeSig, class)
+			d0, _, _ := snap.TableDigest(e.st.DB, "webhooks")
+			h0, _, _ := snap.TableDigest(e.st.DB, "headers")
+			*e.calls = calls{}
+			w := e.do(rt.Method, f.target, f.body, c)
+			cl := *e.calls
+			d1, _, _ := snap.TableDigest(e.st.DB, "webhooks")
+			h1, _, _ := snap.TableDigest(e.st.DB, "headers")
+			r.Count("requests_with_failing_token_store", 1)
+			detail := map[string]any{"config": e.p.String(), "request": rt.Method + " " + f.target, "authorization_shape": c.shape, "status": w.Code, "response": clip(w.Body.String()), "repository_calls": cl.ops}
+			if w.Code != http.StatusUnauthorized && w.Code < 500 {
+				r.Violate(fmt.Sprintf("token-store-failing|not-refused|%s|class=%s|status=%d", routeSig, class, w.Code),
+					fmt.Sprintf("%s answered %d for %s while the token look-up fails; expected 401 (or a 5xx), never acceptance", routeSig, w.Code, c.shape), caseID, detail)
+			}
+			if cl.headers+cl.tokenWrites+cl.webhooks > 0 || d0 != d1 || h0 != h1 {
+				r.Violate(fmt.Sprintf("token-store-failing|handler-ran|%s|class=%s", routeSig, class),
+					fmt.Sprintf("%s with %s while the token look-up fails: handler logic ran (repository calls %v)", routeSig, c.shape, cl.ops), caseID, detail)
+			}
+		}
+	}
+}
+
 // allowListed classifies a route outside the API prefix; "" = allowed.
 func (e *env) allowListed(rt gin.RouteInfo) (kind, bad string) {
 	p := rt.Path
@@ -812,6 +871,9 @@ func (e *env) runPoint() {
 				r.Count("random_malformed_authorization_values", 1)
 			}
 		}
+	}
+	if e.p.Auth {
+		e.failingTokenStore(routes)
 	}
 	r.Count("configurations", 1)
 	r.Count("api_routes_enumerated", int64(nAPI))
